@@ -5,6 +5,7 @@
 import CimbaModel.Sim.Basic
 import CimbaModel.HashHeap.Orders
 import CimbaModel.Sim.S2PoolCalls
+import CimbaModel.Sim.S2PoolFull
 import CimbaModel.Props.C02
 
 namespace CimbaModel.Props.C07
@@ -26,16 +27,22 @@ theorem pool_demand_iff_available (w : World) (p : Nat) (x : Pool) (hx : w.pools
 
 /-- what `PoolInv` says, spelled out on the model's own data: for every pool the holder list is a well-formed
     hashheap; **the amount in use is the sum of the amounts held by the individual processes and does not exceed
-    the capacity**; every holder record belongs to an existing process (key = process id + 1); and a process lists the
-    pool among its held objects exactly when it has a record in the pool's holder list -/
+    the capacity**; every holder record belongs to an existing process (key = process id + 1) and carries a positive
+    amount; and a process lists the pool among its held objects exactly when it has a record in the pool's holder list -/
 theorem pool_invariant_unfolded {w : World} (hi : PoolInv w) {pl : Nat} {x : Pool} (hx : w.pools[pl]? = some x) :
     WF holder_queue_check x.holders ∧
     x.inUse = ((abs x.holders).map (fun t => t.item.b)).sum ∧
     x.inUse ≤ x.cap ∧
     (∀ k ∈ keys (abs x.holders), ∃ pid, pid < w.procs.size ∧ k = pid + 1) ∧
+    (∀ t ∈ abs x.holders, 0 < t.item.b) ∧
     (∀ q, HoldRef.pool pl ∈ (w.proc q).held ↔ q + 1 ∈ keys (abs x.holders)) := by
   obtain ⟨ok, lk⟩ := hi.2 pl x.view (poolView_of_get hx)
-  exact ⟨ok.wf, ok.sum, ok.inCap, ok.tags, lk⟩
+  exact ⟨ok.wf, ok.sum, ok.inCap, ok.tags, ok.pos, lk⟩
+
+/-- the invariant that is preserved is `PoolFull` = `PoolInv` together with: every process suspended inside a pool
+    acquisition (frame `.pool pl rem …`) still has a positive outstanding claim `rem` -/
+theorem pool_full_unfolded (w : World) :
+    PoolFull w ↔ PoolInv w ∧ ∀ q pl rem ini pre, (w.proc q).blocked = some (.pool pl rem ini pre) → 0 < rem := Iff.rfl
 
 /-- the amount a process holds according to the model's query `heldAmount` (the library's `cmb_resourcepool_held_by_process`)
     is the amount in its holder record, 0 if it has none -/
@@ -56,29 +63,31 @@ theorem held_le_in_use {w : World} (hi : PoolInv w) {pl : Nat} {x : Pool} (hx : 
 /-- **one dispatched event** — everything the resumed process does until it yields, any command, any resumption of a
     suspended call (including rollback after an interrupt), preemption of other holders, the end of processes —
     **keeps the invariant** -/
-theorem pool_invariant_dispatch {w w' : World} (hi : PoolInv w) (hd : dispatch w = some w') : PoolInv w' :=
-  PoolInv.preserved.dispatch hi hd
+theorem pool_invariant_dispatch {w w' : World} (hi : PoolFull w) (hd : dispatch w = some w') : PoolFull w' :=
+  PoolFull.preserved.dispatch hi hd
 
 /-- hence it holds in every reachable state, for all programs, schedules and same-instant coincidences -/
-theorem pool_invariant_reachable {w : World} (hi : PoolInv w) (fuel : Nat) : PoolInv (runAll fuel w) :=
-  PoolInv.preserved.runAll fuel w hi
+theorem pool_invariant_reachable {w : World} (hi : PoolFull w) (fuel : Nat) : PoolFull (runAll fuel w) :=
+  PoolFull.preserved.runAll fuel w hi
 
 /-- the invariant holds initially: pools created empty (`cmb_resourcepool_initialize`), nobody holding anything,
-    fewer than 2^31 processes -/
+    nobody suspended, fewer than 2^31 processes -/
 theorem pool_invariant_initial (w : World) (hn : w.procs.size < 2 ^ 31)
-    (hheld : ∀ q, (w.proc q).held = [])
-    (hpools : ∀ (pl : Nat) (x : Pool), w.pools[pl]? = some x → x.inUse = 0 ∧ ∃ e, 1 ≤ e ∧ e ≤ 31 ∧ x.holders = mkHH e) : PoolInv w := by
-  refine ⟨hn, ?_⟩
+    (hheld : ∀ q, (w.proc q).held = []) (hbl : ∀ q, (w.proc q).blocked = none)
+    (hpools : ∀ (pl : Nat) (x : Pool), w.pools[pl]? = some x → x.inUse = 0 ∧ ∃ e, 1 ≤ e ∧ e ≤ 31 ∧ x.holders = mkHH e) : PoolFull w := by
+  refine ⟨⟨hn, ?_⟩, fun q pl rem ini pre hq => by rw [hbl q] at hq; cases hq⟩
   intro pl v hv
   obtain ⟨x, hx, rfl⟩ := poolView_some.1 hv
   obtain ⟨h0, e, he1, he31, hh⟩ := hpools pl x hx
   obtain ⟨s, hinit, hwf, habs⟩ := CimbaModel.Props.C02.init_WF (lt := holder_queue_check) e he1 he31
   have hs : x.holders = s := by rw [hh]; unfold mkHH; rw [hinit]
   constructor
-  · refine ⟨⟨by show WF _ x.holders; rw [hs]; exact hwf, ?_⟩, ?_, ?_⟩
+  · refine ⟨⟨by show WF _ x.holders; rw [hs]; exact hwf, ?_, ?_⟩, ?_, ?_⟩
     · intro k hk
       have : keys (abs x.holders) = [] := by rw [hs, habs]; rfl
       rw [show x.view.holders = x.holders from rfl, this] at hk; cases hk
+    · intro t ht
+      rw [show x.view.holders = x.holders from rfl, hs, habs] at ht; cases ht
     · show x.inUse = amounts (abs x.holders)
       rw [h0, hs, habs]; rfl
     · show x.inUse ≤ x.cap
@@ -94,20 +103,20 @@ theorem pool_invariant_initial (w : World) (hn : w.procs.size < 2 ^ 31)
 /-- **acquire / preempt when enough is available**: returns success at once, the caller then holds exactly `n` more
     than before, the amount in use is exactly `n` higher -/
 theorem acquire_ok_direct {w : World} {p : Pid} {pl : Nat} {x : Pool} (hi : PoolInv w) (hp : p < w.procs.size)
-    (hx : w.pools[pl]? = some x) (n ini : Nat) (pre : Bool) (hav : x.cap - x.inUse ≥ n) :
+    (hx : w.pools[pl]? = some x) (n ini : Nat) (pre : Bool) (hav : x.cap - x.inUse ≥ n) (hn : 0 < n) :
     (poolLoop w p pl n ini pre).2 = .ret sigSuccess "" ∧
     heldOf (poolLoop w p pl n ini pre).1 pl p = heldOf w pl p + n ∧
     inUseOf (poolLoop w p pl n ini pre).1 pl = inUseOf w pl + n :=
-  poolLoop_direct hi hp hx n ini pre hav
+  poolLoop_direct hi hp hx n ini pre hav hn
 
 /-- **acquire_ok** (`cmb_resourcepool_acquire`): whenever a pass of the acquire loop returns, it returns success and has
     given the caller exactly the outstanding claim `rem` -/
 theorem acquire_ok {w : World} {p : Pid} {pl : Nat} {x : Pool} (hi : PoolInv w) (hp : p < w.procs.size)
-    (hx : w.pools[pl]? = some x) (rem ini : Nat) {sig : Int} {extra : String}
+    (hx : w.pools[pl]? = some x) (rem ini : Nat) (hrem : 0 < rem) {sig : Int} {extra : String}
     (hr : (poolLoop w p pl rem ini false).2 = .ret sig extra) :
     sig = sigSuccess ∧ heldOf (poolLoop w p pl rem ini false).1 pl p = heldOf w pl p + rem ∧
       inUseOf (poolLoop w p pl rem ini false).1 pl = inUseOf w pl + rem :=
-  poolLoop_acquire_ok hi hp hx rem ini hr
+  poolLoop_acquire_ok hi hp hx rem ini hrem hr
 
 /-- … and when it does not return it has taken exactly what was available (`avail`), and waits with the claim reduced
     by exactly that: `held + outstanding claim` is the same before and after the pass.  Over the passes of one call,
@@ -181,16 +190,20 @@ theorem preempt_takes_strictly_lower {w : World} {p : Pid} {pl : Nat} {x : Pool}
   poolMug_takes hi hx hc hlt fuel rem
 
 /-- the mugging loop as a whole (any number of victims) keeps the invariant: units only move between records -/
-theorem preempt_conserves (fuel : Nat) (w : World) (p : Pid) (pl rem : Nat) (hi : PoolInv w) (hp : p < w.procs.size) :
-    PoolInv (poolMug fuel w p pl rem).1 :=
-  PoolInv.poolMug fuel w p pl rem hi hp
+theorem preempt_conserves (fuel : Nat) (w : World) (p : Pid) (pl rem : Nat) (hi : PoolInv w) (hp : p < w.procs.size)
+    (hrem : 0 < rem) : PoolInv (poolMug fuel w p pl rem).1 :=
+  PoolInv.poolMug fuel w p pl rem hi hp hrem
 
 /-! ### the hypotheses are satisfiable -/
 
 /-- an initial world with one pool of capacity 5 and two processes satisfies the invariant -/
-example : PoolInv { procs := #[{}, {}], pools := #[{ cap := 5, holders := mkHH 4, guard := 0 }] } := by
+example : PoolFull { procs := #[{}, {}], pools := #[{ cap := 5, holders := mkHH 4, guard := 0 }] } := by
   apply pool_invariant_initial
   · decide
+  · intro q
+    unfold World.proc
+    rw [Array.getD_eq_getD_getElem?]
+    rcases q with _ | _ | q <;> simp
   · intro q
     unfold World.proc
     rw [Array.getD_eq_getD_getElem?]
